@@ -61,7 +61,8 @@ def random_affine(rng, dim, amp=0.3):
     A = random_rotation(rng, dim) @ A
     t = rng.uniform(-1, 1, dim)
     # the length unit is arbitrary: a third of the affine maps shrink the body to millimetres, a third blow it up
-    s = [1.0, 1.0, 4e-3, 250.0][int(rng.integers(0, 4))] if SCALE_AFFINE else 1.0
+    # (millimetres or micrometres: absolute thresholds hidden in the code show only on small numbers)
+    s = [1.0, 1.0, 4e-3 if t[0] > 0 else 3e-6, 250.0][int(rng.integers(0, 4))] if SCALE_AFFINE else 1.0
     return s * A, s * t
 
 
@@ -189,7 +190,12 @@ def random_displacement(rng, mesh, ncomp=None, grad=0.2, noise=0.01, nv=None):
     X = mesh.points
     dim = X.shape[1]
     f = smooth_map(rng, dim, eps=grad)
-    u = f(X) - X
+    # in coordinates of the body (about 1.5 long, as the base meshes are): the waves and the bound on the gradient keep their meaning on
+    # bodies of any length unit, and no rigid translation far larger than the body is added (which would only cost digits)
+    c = X.mean(0)
+    L = (float(np.ptp(X, axis=0).max()) or 1.5) / 1.5
+    Xn = (X - c) / L
+    u = L * (f(Xn) - Xn)
     cells = mesh.cells
     h = float(np.min(X[cells].max(1) - X[cells].min(1)))
     u = u + noise * h * rng.uniform(-1, 1, X.shape)
